@@ -6,6 +6,13 @@
 // over the in-process entries (decoded ServeMsg, strict-job ServeRaw /
 // inline+replay) with synthetic client addresses; every reply is judged by
 // replycontract.Check against the query that produced it.
+//
+// Each configuration runs on two stacks: the full-featured one (views,
+// blocklist, rate limits: every local-answer class, but every request is
+// decoded ahead of the cache) and a second one on which wire-born requests
+// reach the cache undecoded — there the same pairs are answered by the cache's
+// byte ladder, and multi-step cache-state SEQUENCES (seq.go) make it compose
+// replies from several cached pieces for every client flag combination.
 package main
 
 import (
@@ -749,17 +756,28 @@ func seqDNSSEC(ci int) string {
 func newMonitor(r *vlib.Run, ci int, seq bool) (*monitor, error) {
 	cs := confs[ci%len(confs)]
 	ups := &upstreams{}
-	cfg := buildConfig(cs)
-	if seq {
-		cfg.DNSSEC = seqDNSSEC(ci)
-		// views and a non-empty blocklist decode every request ahead of the
-		// cache; without them a wire-born request reaches the cache undecoded
-		// and its byte ladder (exact copy, alias-chase composition, subtree
-		// cut, cached failure) answers
-		cfg.Views, cfg.Blocklist = nil, nil
+	// A listener that cannot bind (a port taken by another process between
+	// the stack picking it and the server binding it) is an environment
+	// failure: build the stack again, on freshly picked ports.
+	var st *stack.Stack
+	var err error
+	for attempt := 0; attempt < 3; attempt++ {
+		cfg := buildConfig(cs)
+		if seq {
+			cfg.DNSSEC = seqDNSSEC(ci)
+			// views and a non-empty blocklist decode every request ahead of the
+			// cache; without them a wire-born request reaches the cache undecoded
+			// and its byte ladder (exact copy, alias-chase composition, subtree
+			// cut, cached failure) answers
+			cfg.Views, cfg.Blocklist = nil, nil
+		}
+		st, err = stack.New(stack.Options{Config: cfg, Stub: ups.stub,
+			Listen: stack.Listen{Plain: true, DoT: true, DoH: true, DoQ: true}})
+		if err == nil {
+			break
+		}
+		r.Count("stack_retries", 1)
 	}
-	st, err := stack.New(stack.Options{Config: cfg, Stub: ups.stub,
-		Listen: stack.Listen{Plain: true, DoT: true, DoH: true, DoQ: true}})
 	if err != nil {
 		return nil, err
 	}
@@ -771,6 +789,7 @@ func main() {
 	r.Assume("the scripted stub stands in for the resolver/forwarder: anything a dns.Msg can express may come back from upstream")
 	r.Assume("replycontract classifies 'undecodable' with the same library decoder (miekg/dns) the server falls back to")
 	r.Assume("reply classes that need a non-loopback client (BADCOOKIE, rate-limited, access-denied, views) are driven through the in-process entries with synthetic client addresses")
+	r.Assume("sequences: virtual time = (*Cache).VerifAdvance rewriting stored instants at quiescent points (one request at a time); an operator purge = Cache.Purge; validated-negative provenance is attached by the stub as the resolver would (MarkValidatedNegativeProofResponse), signatures are placeholders the cache never checks")
 
 	if raw := r.ReplayCase(); raw != nil {
 		replay(r, raw)
@@ -856,7 +875,7 @@ func main() {
 	r.Require("strict_branch", 1000)
 	r.Require("inline_served", 30)
 	requireSequences(r)
-	r.Finish("every reply observed on every transport/entry is judged by replycontract.Check (the C06 statement) against the exact query bytes that produced it; distinct = (case kind, transport, reply class, client EDNS shape, size bucket, upstream shape)")
+	r.Finish("every reply observed on every transport/entry is judged by replycontract.Check (the C06 statement) against the exact query bytes that produced it; distinct = (case kind, transport, reply class, client EDNS shape, size bucket, upstream shape; for sequences: chain shape, stored AD bits of the cached hops, serving rung)")
 }
 
 func replay(r *vlib.Run, raw json.RawMessage) {
